@@ -73,8 +73,8 @@ OUTER:
 				atomic.StoreUint64(&s.stats.persistSnapshotSize, uint64(ourSnapshot.Size()))
 				atomic.StoreUint64(&s.stats.persistEpoch, ourSnapshot.epoch)
 			}
-			s.rootLock.Unlock()
 			verifPersisterGrab(s, ourSnapshot, len(ourPersisted), len(ourPersistedCallbacks))
+			s.rootLock.Unlock()
 
 			if ourSnapshot != nil {
 				startTime := time.Now()
